@@ -9,13 +9,13 @@ import (
 func init() {
 	register("C07", &ruleSet{
 		run:    runC07,
-		floors: map[string]int{"O1": 4, "O2": 4},
+		floors: map[string]int{"O1": 4, "O2": 4, "O3": 4, "O4": 1},
 		explain: "Decides the demand gate, which is a comparator / dominance fact (the recovery half - saturated drop-free samples bring the estimate to within one of its " +
 			"ceiling in a bounded number of samples - quantifies over numeric trajectories and is not applicable): (O1) for AIMD, Vegas, Gradient and Gradient2 every store of " +
 			"the estimate that is not proved <= the old estimate lies only on paths that established 'not app-limited' with the property's own comparator: 2 x inFlight >= " +
 			"estimate for the delay-based algorithms (equivalently inFlight >= estimate/2), inFlight >= limit for AIMD, both operands being the in-flight parameter of the sample " +
 			"and the current estimate; (O2) no computed update is discarded: every path that evaluates the value destined for the estimate also stores it (a structural " +
-			"necessary condition of 'no reachable state is stuck').",
+			"necessary condition of 'no reachable state is stuck'); (O3) the clamp of every stored estimate (C04/O1) and (O4) the positivity of the default step tables, both of which the gate / recovery arguments take as given.",
 	})
 }
 
@@ -24,6 +24,14 @@ func runC07(p *Prog, l *Ledger) {
 	l.Rule("O2", "no computed update is discarded: a path that evaluates the new estimate stores it")
 	l.NotCovered = []string{"the recovery half: saturated drop-free samples raise the estimate to within one of its ceiling within a bounded number of samples (numeric trajectories)"}
 	l.Assume("valid configuration and inductive hypothesis as in C04")
+	l.Rule("O3", "what the gate argument takes as given is established by the code (decided by the C04/O1 rule on the same tree): every stored estimate stays within [max(1,minLimit), maxLimit], so a reset to the floor (probe) never lifts an estimate that had sunk below it")
+	importObligations(p, l, "C04", "O3", func(o *Obligation) bool { return o.Rule == "O1" })
+	l.Rule("O4", "the default step tables cannot produce a zero step: every entry of the pre-computed lookup tables of limit/functions is proved >= 1 (a zero alpha/beta/increase step is a stuck state: healthy saturation no longer raises the estimate)")
+	if ok, why := tableStepNonNegative(p); ok {
+		l.OK("O4", "limit/functions/tables", "", "every stored table entry is a conversion of max(1, ...)")
+	} else {
+		l.Bad("O4", "limit/functions/tables", "", "a table entry is not proved >= 1: "+why)
+	}
 	for _, af := range algoFuncs(p, l) {
 		key := p.Key(af.Fn)
 		if af.InFlight == nil {
